@@ -1,13 +1,12 @@
 import LeptosModel.Model.Reactive
-import LeptosModel.Proofs.ReactiveTop
+import LeptosModel.Proofs.ReactiveTopEff
 /-!
 # C01 — derived values equal a from-scratch recomputation
 
 `C01_read_eq_scratch_stmt` is the property at full strength for programs whose bodies use
 tracked reads only (an untracked read contributes a snapshot, see `C01_untracked_…`).
 The proof (invariant over the mark/check/pull protocol) lives in `Proofs/ReactiveInv.lean`;
-until it is complete the statement is kept visible here as a `def … : Prop` and is NOT
-counted as a discharged obligation.
+it is complete: `C01_read_eq_scratch` below is a theorem.
 -/
 namespace Leptos.Reactive
 
@@ -17,30 +16,33 @@ def progTracked (p : Prog) : Bool :=
 def isData (p : Prog) (i : Nat) : Bool :=
   match p[i]? with | some (.sig _) => true | some (.memo _) => true | _ => false
 
-/-- **full statement** (OPEN for programs with effects; proved below for programs without effects):
-after any history (writes incl. equal values, reads of any node in any order, executor polls),
-reading any signal or memo returns its from-scratch value. -/
-def C01_read_eq_scratch_stmt : Prop :=
-  ∀ (p : Prog) (ops : List Op) (m : Nat), WF p = true → progTracked p = true → isData p m = true →
-    (step p (run p ops) (.read m)).2 = some (specVal p (run p ops) m)
-
 theorem progTracked_eq (p : Prog) : progTracked p = bodiesTracked p := rfl
 
-/-- **stage (a)**: the full statement restricted by the decidable hypothesis `noEff p = true`
-(the program consists of signals and memos only; `poll` / `idle` / `pause` / `resume` / `dispose`
-are then no-ops).  What is missing for `C01_read_eq_scratch_stmt`: effect runs (`pollEff`), whose
-bodies write signals while the effect is the observer.  Proof: `Proofs/Reactive*.lean`
-(invariant `InvR`, big-step lemma `upd_ok`). -/
-theorem C01_read_eq_scratch_noeff :
-    ∀ (p : Prog) (ops : List Op) (m : Nat), WF p = true → progTracked p = true → noEff p = true →
-      isData p m = true →
-      (step p (run p ops) (.read m)).2 = some (specVal p (run p ops) m) := by
-  intro p ops m hwf ht hne hd
+/-- **full statement**: after any history (writes incl. equal values, reads of any node in any
+order, executor polls running effects whose bodies may write signals, pause / resume / dispose),
+reading any signal or memo returns its from-scratch value.
+Proof: `Proofs/Reactive*.lean` — invariant `InvR` of the mark / check / pull protocol, big-step
+lemma `upd_ok` for `update_if_necessary`, `setSignal_inv` for writes, `effLoop_spec` for effect tasks. -/
+theorem C01_read_eq_scratch :
+  ∀ (p : Prog) (ops : List Op) (m : Nat), WF p = true → progTracked p = true → isData p m = true →
+    (step p (run p ops) (.read m)).2 = some (specVal p (run p ops) m) := by
+  intro p ops m hwf ht hd
   have hm : m < p.length := by
     rcases Nat.lt_or_ge m p.length with h | h
     · exact h
     · simp [isData, List.getElem?_eq_none h] at hd
-  exact read_eq_scratch_noeff hwf (memoOK_of_wf hwf ht) hne ops m hm
+  apply read_eq_scratch hwf ht ops m hm
+  simp only [isData] at hd
+  cases hp : p[m]? with
+  | none => rfl
+  | some d => cases d <;> simp_all
+
+/-- stage (a), kept as a corollary: programs without effects -/
+theorem C01_read_eq_scratch_noeff :
+    ∀ (p : Prog) (ops : List Op) (m : Nat), WF p = true → progTracked p = true → noEff p = true →
+      isData p m = true →
+      (step p (run p ops) (.read m)).2 = some (specVal p (run p ops) m) :=
+  fun p ops m hwf ht _ hd => C01_read_eq_scratch p ops m hwf ht hd
 
 /-- the from-scratch value does not depend on the fuel once it exceeds the node id -/
 theorem C01_scratch_fuel_irrelevant :
@@ -62,5 +64,20 @@ example :
     WF c01Prog = true ∧ progTracked c01Prog = true ∧ noEff c01Prog = true ∧ isData c01Prog 5 = true ∧
     (step c01Prog (run c01Prog ops) (.read 5)).2 = some (specVal c01Prog (run c01Prog ops) 5) ∧
     specVal c01Prog (run c01Prog ops) 5 = 0 := by decide +kernel
+
+/-! ## sanity with effects: an effect that copies `s0 + 1` into `s1` while memos depend on `s1` -/
+
+def c01ProgE : Prog :=
+  [.sig 1, .sig 0,
+   .memo (.add (.rd true 0) (.rd true 1)),                 -- 2
+   .eff (.wr 1 (.add (.rd true 0) (.lit 1))),              -- 3: s1 := s0 + 1
+   .memo (.mulc 2 (.rd true 2)),                           -- 4
+   .eff (.seq (.rd true 4) (.rd true 1))]                  -- 5
+
+example :
+    let ops : List Op := [.read 4, .idle, .read 4, .set 0 5, .read 2, .poll 0, .read 4, .idle]
+    WF c01ProgE = true ∧ progTracked c01ProgE = true ∧ isData c01ProgE 4 = true ∧
+    (step c01ProgE (run c01ProgE ops) (.read 4)).2 = some (specVal c01ProgE (run c01ProgE ops) 4) ∧
+    specVal c01ProgE (run c01ProgE ops) 4 = 22 := by decide +kernel
 
 end Leptos.Reactive
